@@ -266,7 +266,7 @@ class Gen:
                 if r.random() < 0.6:
                     p[1] = now
         if bad and pts:
-            pts.insert(r.randrange(len(pts) + 1), "!")
+            pts.insert(r.randrange(len(pts) + 1), r.choice(["!", "!", "!m", "!r"]))
         m = r.choice(["~", "~", hx(r.choice(self.meas + self.filter_extra))])
         op = ["ins", m] + pts
         return self.maybe_via(op, m)
